@@ -148,7 +148,7 @@ func scenario(k int) {
 	tr := func(f string, a ...interface{}) { trace = append(trace, fmt.Sprintf(f, a...)) }
 	open := func() {
 		s := &sock{ID: len(socks), LPort: ports[r.Intn(len(ports))]}
-		kind := []string{"udp-wild", "udp-specific", "udp-nicbound", "udp-connected", "udp-connected-nic", "tcp-listen-wild", "tcp-listen-specific"}[r.Intn(7)]
+		kind := []string{"udp-wild", "udp-specific", "udp-specific-nic", "udp-nicbound", "udp-connected", "udp-connected-nic", "tcp-listen-wild", "tcp-listen-specific"}[r.Intn(8)]
 		s.Kind = kind
 		var err *tcpip.Error
 		if kind[:3] == "udp" {
@@ -170,6 +170,13 @@ func scenario(k int) {
 		case "udp-nicbound":
 			bind.NIC = tcpip.NICID(1 + r.Intn(2))
 			s.NIC = bind.NIC
+		case "udp-specific-nic":
+			c := []struct {
+				nic  tcpip.NICID
+				addr tcpip.Address
+			}{{1, l11}, {1, l12}, {2, l21}}[r.Intn(3)]
+			bind.NIC, bind.Addr = c.nic, c.addr
+			s.NIC, s.LAddr = c.nic, c.addr
 		}
 		if e := s.ep.Bind(bind, nil); e != nil {
 			tr("open %s port %d -> bind failed: %v", kind, s.LPort, e)
@@ -226,7 +233,7 @@ func scenario(k int) {
 		}{{1, l12}, {1, l11}, {2, l21}}[r.Intn(3)]
 		held := false
 		for _, s := range socks {
-			if !s.closed && s.LAddr == victim.addr {
+			if !s.closed && s.LAddr == victim.addr && s.RAddr != "" {
 				held = true
 			}
 		}
@@ -251,7 +258,8 @@ func scenario(k int) {
 	}
 	heldRemoved := func(dst tcpip.Address) bool {
 		for _, s := range socks {
-			if !s.closed && s.LAddr == dst {
+			// only a connected socket pins its local address (through its route)
+			if !s.closed && s.LAddr == dst && s.RAddr != "" {
 				return true
 			}
 		}
